@@ -216,6 +216,12 @@ class InterpBase:
     if ty.startswith('map['):
       k, v = _split_top(ty[4:-1])
       return self.fresh_map(k, v, name)
+    if ty.startswith('counter['):
+      m = self.fresh_map(ty[8:-1], 'int', name)
+      m.is_counter = True
+      kk = z3.Const(self.path.fresh_name('k'), m.ksort)
+      self.assume(z3.ForAll([kk], z3.Implies(z3.Select(m.has, kk), z3.Select(m.val, kk) >= 0)))
+      return m
     if ty.startswith('omap['):
       k, v = _split_top(ty[5:-1])
       return self.fresh_map(k, v, name, ordered=True)
